@@ -120,6 +120,16 @@ def gen_case(rng):
         maps, den = [float64_special(rng, h, w, [[v / den for v in row] for row in m]) for m in maps], 1
         kind = "f64special"
     thr = pick_thr(rng, dtype)
+    if kind == "f64special" and thr > -PAD_THR and rng.random() < 0.5:
+        # float64 values just below / at / just above the threshold (a float32 comparison would confuse them)
+        for m in maps:
+            for _ in range(rng.randrange(1, 3)):
+                i, j = rng.randrange(h), rng.randrange(w)
+                for ii in range(max(0, i - 1), min(h, i + 2)):
+                    for jj in range(max(0, j - 1), min(w, j + 2)):
+                        m[ii][jj] = min(m[ii][jj], thr - 0.0625)
+                m[i][j] = thr + rng.choice([-2e-10, -1e-10, 0.0, 1e-10, 2e-10])
+        kind = "f64special+thr_edge"
     if dtype in ("f32", "f64") and rng.random() < 0.06:
         # values around kornia's pad constant -1e4 (and +1e4); thresholds at and BELOW -1e4 (the latter is the excluded
         # region of local_peaks_iff's hypothesis -big <= thr: finding F-C06pad)
@@ -135,6 +145,7 @@ BIG_LEVELS = [-40000, -30000, -20001, -20000, -19999, -18000, 0, 2, 19999, 20000
 
 
 HALF = ("f16", "bf16")
+PAD_THR = 9000.0
 DTYPE_MIX = ["f32"] * 5 + ["f64"] * 3 + ["f16", "bf16"]
 DYADIC_THRS = [t for t, q in THRS if q.denominator in (1, 2, 4, 8)]
 
@@ -180,6 +191,18 @@ def big_half_case(rng):
         m[i][j] = rng.randrange(4, 9)
     return {"S": 1, "C": 1, "h": h, "w": w, "den": 8, "maps": [m], "thr": 0.125, "p": 0,
             "dtype": dtype, "kind": "big_half", "shape": "big_half"}
+
+
+def fail(chk, what, case, observed=None, signatures=(), clause=None):
+    """chk.fail + bookkeeping for the evidence: how many oracle failures each known signature absorbed (and how many none did),
+    and, for clause-structured oracles, which clause failed"""
+    key = ",".join(signatures) if signatures else "(none: reported as VIOLATION)"
+    d = chk.extra.setdefault("oracle_failures_by_signature", {})
+    d[key] = d.get(key, 0) + 1
+    for cl in (clause or []):
+        c = chk.extra.setdefault("oracle_failures_by_clause", {})
+        c[cl] = c.get(cl, 0) + 1
+    chk.fail(what, case, observed, signatures)
 
 
 def thr_rat(t):
@@ -460,12 +483,12 @@ def run_case(chk, I, case, mline, where="generated"):
              tags=[f"shape:{case.get('shape', where)}", f"p:{p}", f"peaks:{min(len(m_rough), 5)}{'+' if len(m_rough) >= 5 else ''}",
                    "neg" if has_neg else "nonneg", f"dtype:{dtype}", f"thr:{thr}", "thr<0" if thr < 0 else "thr>=0",
                    "S>1&C>1" if case["S"] > 1 and case["C"] > 1 else "S=1|C=1"]
-             + ([f"kind:{case['kind']}"] if case.get("kind") in ("f64special", "big_half", "bigval") else []))
+             + ([f"kind:{case['kind']}"] if case.get("kind") in ("f64special", "f64special+thr_edge", "big_half", "bigval") else []))
     if rough != m_rough:
         chk.disagree("find_local_peaks_rough == Peaks.localPeaksRough", small, str(rough)[:600], str(m_rough)[:600])
     why = oracle_rough(np, a, thr, rough, dtype)
     if why:
-        chk.fail(f"C06 fails on find_local_peaks_rough ({TORCH_DTYPE[dtype]} maps): {why}", small, str(rough)[:600], oracle_rough.sigs)
+        fail(chk, f"C06 fails on find_local_peaks_rough ({TORCH_DTYPE[dtype]} maps): {why}", small, str(rough)[:600], oracle_rough.sigs)
     if thr < -PAD:
         chk.extra["excluded_region_thr_below_pad"] = chk.extra.get("excluded_region_thr_below_pad", 0) + 1
 
@@ -474,19 +497,19 @@ def run_case(chk, I, case, mline, where="generated"):
         chk.disagree("find_local_peaks(refinement=None) == find_local_peaks_rough", small, str(none_ref)[:600], str(rough)[:600])
         why = oracle_rough(np, a, thr, none_ref, dtype)
         if why:
-            chk.fail(f"C06 fails on find_local_peaks(refinement=None): {why}", small, str(none_ref)[:600])
+            fail(chk, f"C06 fails on find_local_peaks(refinement=None): {why}", small, str(none_ref)[:600])
     extra_rough_oracles(chk, I, case, cms, a, rough, small, dtype)
     if p == 0 or (rough and rough[0] == "raise"):
         return
     refined = I.full(cms, thr, "integral", p)
     if is_p1_raise(refined, p):
         # documented behaviour of the pinned tree (finding F-C06p1); the model's value is rough + 0
-        chk.fail("C06: find_local_peaks(integral, integral_patch_size=1) raises inside kornia", small, str(refined),
+        fail(chk, "C06: find_local_peaks(integral, integral_patch_size=1) raises inside kornia", small, str(refined),
                  ["patch_size_1"])
         return
     if refined and refined[0] == "raise":
         chk.disagree("find_local_peaks(integral) raises where the model does not", small, str(refined), "ok")
-        chk.fail("C06: find_local_peaks(integral) raised", small, str(refined))
+        fail(chk, "C06: find_local_peaks(integral) raised", small, str(refined))
         return
     # correspondence on the refined output
     if [(q[2], q[3], q[4]) for q in refined] != [(v, s, c) for _, _, v, s, c, _ in model]:
@@ -515,7 +538,7 @@ def run_case(chk, I, case, mline, where="generated"):
     if has_neg:
         chk.extra["excluded_region_cases"] = chk.extra.get("excluded_region_cases", 0) + 1
     if why:
-        chk.fail(f"C06 fails on find_local_peaks(integral, p={p}): {why}", small, str(refined)[:600], sigs)
+        fail(chk, f"C06 fails on find_local_peaks(integral, p={p}): {why}", small, str(refined)[:600], sigs)
 
 
 def half_refine_probe(chk, torch, fn, name):
@@ -590,7 +613,7 @@ def extra_rough_oracles(chk, I, case, cms, a, rough, small, dtype):
                 alone = I.rough(cms[s_:s_ + 1, c_:c_ + 1], thr)
                 want = [(q[0], q[1], q[2], 0, 0) for q in rough if q[3] == s_ and q[4] == c_]
                 if alone != want:
-                    chk.fail("C06: the peaks of one map depend on the other maps in the batch (find_local_peaks_rough)",
+                    fail(chk, "C06: the peaks of one map depend on the other maps in the batch (find_local_peaks_rough)",
                              {**small, "map": [s_, c_]}, {"in_batch": str(want)[:300], "alone": str(alone)[:300]})
     if n % 6 == 1 and case["h"] * case["w"] > 1:
         chk.tag("oracle:non-contiguous")
@@ -602,7 +625,7 @@ def extra_rough_oracles(chk, I, case, cms, a, rough, small, dtype):
             chk.disagree("find_local_peaks_rough on a non-contiguous view == on the contiguous tensor", small, str(got)[:400], str(rough)[:400])
             why = oracle_rough(np, a, thr, got, dtype)
             if why:
-                chk.fail(f"C06 fails on find_local_peaks_rough (non-contiguous input): {why}", small, str(got)[:400], oracle_rough.sigs)
+                fail(chk, f"C06 fails on find_local_peaks_rough (non-contiguous input): {why}", small, str(got)[:400], oracle_rough.sigs)
     if n % 7 == 2:
         chk.tag("oracle:refinement=other-string")
         got = I.full(cms, thr, "local", 5)
@@ -610,7 +633,7 @@ def extra_rough_oracles(chk, I, case, cms, a, rough, small, dtype):
             chk.disagree("find_local_peaks(refinement='local') == find_local_peaks_rough", small, str(got)[:400], str(rough)[:400])
             why = oracle_rough(np, a, thr, got, dtype)
             if why:
-                chk.fail(f"C06 fails on find_local_peaks(refinement='local'): {why}", small, str(got)[:400], oracle_rough.sigs)
+                fail(chk, f"C06 fails on find_local_peaks(refinement='local'): {why}", small, str(got)[:400], oracle_rough.sigs)
     if thr == 0.2 and dtype == "f32":
         chk.tag("oracle:default-arguments")
         r = call(I.pf.find_local_peaks_rough, cms)
@@ -638,7 +661,7 @@ def extra_refined_oracles(chk, I, case, cms, a, refined, small, dtype):
                 alone = I.full(cms[s_:s_ + 1, c_:c_ + 1], thr, "integral", p)
                 want = [(q[0], q[1], q[2], 0, 0) for q in refined if q[3] == s_ and q[4] == c_]
                 if (alone and alone[0] == "raise") or not same_records(np, lambda q: a[s_, c_], alone, want, p, dtype):
-                    chk.fail("C06: the refined peaks of one map depend on the other maps in the batch (find_local_peaks, integral)",
+                    fail(chk, "C06: the refined peaks of one map depend on the other maps in the batch (find_local_peaks, integral)",
                              {**small, "map": [s_, c_]}, {"in_batch": str(want)[:300], "alone": str(alone)[:300]})
     if n % 6 == 1 and case["h"] * case["w"] > 1:
         got = I.full(cms.transpose(2, 3).contiguous().transpose(2, 3), thr, "integral", p)
@@ -717,6 +740,8 @@ def main(chk: Check):
                   "maps": [[[0.0, 0.0, 0.0, 0.0], [0.0, 0.5 + 1e-10, 0.5 + 2e-10, 0.0], [0.0, 0.0, 0.0, 0.0]]]})
     cases.append({"S": 1, "C": 1, "h": 5, "w": 5, "den": 1, "thr": 0.5, "p": 3, "dtype": "f64", "kind": "f64special", "shape": "fixed",
                   "maps": [[[math.exp(-((i - 2) ** 2 + (j - 2) ** 2) / (2 * 1e4 ** 2)) for j in range(5)] for i in range(5)]]})
+    cases.append({"S": 1, "C": 2, "h": 3, "w": 3, "den": 1, "thr": 0.5, "p": 0, "dtype": "f64", "kind": "f64special+thr_edge", "shape": "fixed",
+                  "maps": [[[0.0, 0.0, 0.0], [0.0, 0.5 - 1e-10, 0.0], [0.0, 0.0, 0.0]], [[0.0, 0.0, 0.0], [0.0, 0.5 + 1e-10, 0.0], [0.0, 0.0, 0.0]]]})
     for _ in range(chk.n(2, 12)):
         cases.append(big_half_case(rng))
     for _ in range(chk.n(1000, 8000)):
@@ -747,7 +772,7 @@ def main(chk: Check):
         with np.errstate(all="ignore"):
             why = oracle_rough(np, I.exact(cms), 0.125, got, dtype)
         if why:
-            chk.fail(f"C06 fails on find_local_peaks_rough ({TORCH_DTYPE[dtype]} map with a value of {big}): {why}",
+            fail(chk, f"C06 fails on find_local_peaks_rough ({TORCH_DTYPE[dtype]} map with a value of {big}): {why}",
                      {k: case[k] for k in ("S", "C", "h", "w", "den", "maps", "thr", "p", "dtype")}, str(got)[:300], oracle_rough.sigs)
     # NaN cells: outside the property's domain (comparisons with NaN are false both ways); outcome recorded, not judged
     nan_map = torch.tensor([[0.0, 0.0, 0.0], [0.0, 1.0, float("nan")], [0.0, 0.0, 0.0]]).reshape(1, 1, 3, 3)
@@ -780,7 +805,7 @@ def main(chk: Check):
         if not (abs(dx - mx) <= tol and abs(dy - my) <= tol):
             chk.disagree("integral_regression == Peaks.integralOffsets", {"p": p, "patch_x8": ints}, [dx, dy], [mx, my])
             if min(ints) >= 0 and not (abs(dx) <= p / 2 and abs(dy) <= p / 2):
-                chk.fail("C06: integral_regression offset exceeds half a patch on a non-negative patch",
+                fail(chk, "C06: integral_regression offset exceeds half a patch on a non-negative patch",
                          {"p": p, "patch_x8": ints}, [dx, dy])
 
 
